@@ -1770,3 +1770,47 @@ Section WriterFacts.
     - reflexivity.
   Qed.
 End WriterFacts.
+
+(* ================================================================ the incremental evaluator used by the case files
+   computes exactly the crash disks of [crash_disk] *)
+Notation x_crash_disk mac := (crash_disk pc_deser mac pc_ser pc_enc_changes pc_ser_hdr pc_enc_map).
+
+Lemma x_crash_disk_cons : forall mac d w o tl i a b,
+  x_crash_disk mac d w (o :: tl) (S i) a b =
+  x_crash_disk mac (exec d (fst (x_op_actions mac d w o))) (snd (x_op_actions mac d w o)) tl i a b.
+Proof.
+  intros. unfold crash_disk, x_op_actions. cbn [firstn run_ops nth_error].
+  destruct (op_actions pc_deser mac pc_ser pc_enc_changes pc_ser_hdr pc_enc_map d w o) as [acts w']. reflexivity.
+Qed.
+
+Lemma walk_spec : forall ops mac d w idx probes nxt,
+  (forall i a b, nxt = (idx + N.of_nat i, a, b) -> (i <= length ops)%nat ->
+     snd (walk mac d w ops idx probes nxt) = x_crash_disk mac d w ops i a b) /\
+  (fst (walk mac d w ops idx probes nxt) = true ->
+     forall i a b o, In (idx + N.of_nat i, a, b, o) probes -> (i <= length ops)%nat ->
+       obs_ok mac (x_crash_disk mac d w ops i a b) o = true).
+Proof.
+  induction ops as [|op tl IH]; intros mac d w idx probes nxt.
+  - cbn [walk fst snd length]. split.
+    + intros i a b _ Hi. assert (i = 0)%nat by lia. subst. reflexivity.
+    + intros Hok i a b o Hin Hi. assert (i = 0)%nat by lia. subst.
+      unfold probes_at in Hok. rewrite forallb_forall in Hok. specialize (Hok _ Hin). cbn in Hok.
+      replace (idx + 0 =? idx) with true in Hok by (symmetry; apply N.eqb_eq; lia).
+      unfold crash_disk. cbn.
+      replace (cut [] a b) with (@nil action) in Hok by (unfold cut; destruct a; reflexivity). exact Hok.
+  - cbn [walk]. destruct (x_op_actions mac d w op) as [acts w'] eqn:Ea.
+    specialize (IH mac (exec d acts) w' (idx + 1) probes nxt).
+    destruct (walk mac (exec d acts) w' tl (idx + 1) probes nxt) as [ok_rest dn] eqn:Ew.
+    cbn [fst snd] in *. destruct IH as [IH1 IH2]. split.
+    + intros i a b -> Hi. destruct i as [|i].
+      * replace (idx + N.of_nat 0 =? idx) with true by (symmetry; apply N.eqb_eq; lia).
+        unfold crash_disk. cbn [firstn run_ops nth_error]. unfold x_op_actions in Ea. rewrite Ea. reflexivity.
+      * replace (idx + N.of_nat (S i) =? idx) with false by (symmetry; apply N.eqb_neq; lia).
+        rewrite x_crash_disk_cons, Ea. cbn [fst snd]. apply IH1; [f_equal; f_equal; lia | cbn in Hi; lia].
+    + intros Hok i a b o Hin Hi. apply andb_true_iff in Hok as [Hhere Hrest]. destruct i as [|i].
+      * unfold probes_at in Hhere. rewrite forallb_forall in Hhere. specialize (Hhere _ Hin). cbn in Hhere.
+        replace (idx + 0 =? idx) with true in Hhere by (symmetry; apply N.eqb_eq; lia).
+        unfold crash_disk. cbn [firstn run_ops nth_error]. unfold x_op_actions in Ea. rewrite Ea. exact Hhere.
+      * rewrite x_crash_disk_cons, Ea. cbn [fst snd]. apply (IH2 Hrest i a b o); [|cbn in Hi; lia].
+        replace (idx + 1 + N.of_nat i) with (idx + N.of_nat (S i)) by lia. exact Hin.
+Qed.
